@@ -11,6 +11,7 @@ from spec_classes.errors import FrozenInstanceError
 from spec_classes.types import MISSING, Attr
 from spec_classes.utils.method_builder import MethodBuilder
 from spec_classes.utils.mutation import (
+    _unfrozen,
     invalidate_attrs,
     mutate_attr,
     prepare_attr_value,
@@ -507,7 +508,10 @@ class DeepCopyMethod(MethodDescriptor):
                 new.__dict__[attr] = protect_via_deepcopy(value, memo)
         __post_copy__ = getattr(new, "__post_copy__", None)
         if __post_copy__:
-            __post_copy__()
+            # Like `__post_init__`, the hook may still write to the (frozen)
+            # instance it finalises.
+            with _unfrozen(new):
+                __post_copy__()
         return new
 
     def build_method(self) -> Callable:
